@@ -3,9 +3,10 @@ Line protocol driver: `<op> <json-args>` per line in, one JSON line out.
 Unknown or malformed lines answer `bad-op` (never a default value).
 -/
 import DitModel.Drv.Basic
+import DitModel.Drv.Simplex
 open Dit Dit.Drv
 
-def handlers : List (String × (J → Option J)) := basicHandlers
+def handlers : List (String × (J → Option J)) := basicHandlers ++ simplexHandlers
 
 def answer (line : String) : String :=
   let line := line.trimAscii.toString
